@@ -437,7 +437,7 @@ def meta(tier):
                    "notifications": "N = 4 (6), any subset of raising handler calls, stop marker at any position"},
         "symbolic": ["min_backoff, max_backoff, mult_backoff: reals with 0 < min <= max, mult >= 1", "outcome of every iteration", "stop iteration/finality/origin",
                      "which handler calls raise; where the stop marker sits", "providers' default_sleep (derived triples)"],
-        "outside": ["stop()/wake()/start()/wait() racing a running loop from another thread; stop_all joining real threads (real threads cannot run under a single-thread symbolic executor)",
+        "outside": ["stop()/wake()/start()/wait() racing a running loop from another thread at arbitrary points; stop_all joining real threads (real threads cannot run under a single-thread symbolic executor). One window IS explored sequentially: stop() calls placed between start() returning and the service thread entering run()",
                     "floating-point rounding (floats are modelled as reals; replay uses exact fractions)", "long_poll.py"],
         "stubs": ["interruptable_sleep records the requested duration instead of waiting", "time.monotonic/time.sleep virtual", "threading.Thread replaced by an inert class for the start()-after-stop probe"],
         "assumptions": ["floats behave as reals", "z3 nonlinear real arithmetic is sound"],
